@@ -88,6 +88,15 @@ CHECKS = {
          "the plain tables byte for byte, debug/verbose builds must be byte-identical to the default, and all builds must shape 40-150 texts identically through libgraphite2."),
    note=TB + "LZ4 decoder is an executable Lean definition (partial def), not a proved one; the LZ4-HC compressor is validated per output only. Collision passes are not generated here (C20).",
    design="4/C15"),
+ "C10": dict(
+   technique="Lean 4 specification of rule-level static rules evaluated on the IR + theorem on the class-recursion check + single-fault injection (faulty program and repaired twin) against the real compiler",
+   text=("Proof: SR.noCycleFrom_sound — the model of CheckRecursiveGlyphClasses (depth-first walk with an explicit stack) accepts a class only if no chain of class references leads from it back to "
+         "itself or to a class on the stack, for every reference graph. Specification SR.ruleViolations (selector, @ and association references out of range or onto an inserted item; insertion, deletion, "
+         "association in the positioning table) is evaluated in Lean on the IR of each injected rule and must flag the faulty rule and not its twin. Tie: 29 single-fault injections (static rule x placement x "
+         "table type), each with a minimally repaired twin: the real compiler must reject the faulty program with exit 1, an error on the injected line (or the line of the enclosing construct) with the "
+         "expected id, and no font; the twin must compile."),
+   note=TB + "For text-level rules (undefined names, features, pass structure, attribute roles) the expectation is written in the injector table, not derived in Lean; completeness of the recursion check (every cycle is found) is not proved.",
+   design="4/C10"),
  "C12": dict(
    technique="Lean 4 theorem over the limit table regenerated from constants.h + size-parameterised program families compiled around each limit and decoded strictly",
    text=("Proof: Grc.Lim.guarded_no_wrap — for each of 11 size limits (passes, rule slots, features, user slot attributes, replacement classes, glyph attributes, Glat-v1 attribute ids, pseudo-glyphs, "
